@@ -1,4 +1,4 @@
-// C02 FORMER finding "call-to-main" (repaired in /repo by <commitmain>; regression input): a call whose target is
+// C02 FORMER finding "call-to-main" (repaired in /repo by f929eb7; regression input): a call whose target is
 // `main`.  Before the fix compile_main gave the Core definition `main` NO return-continuation parameter and ended its
 // body in `exit`, but a call site still passed `args ++ [continuation]`:
 //   old scc compile:  def main(n: prd i64) { ... main(0, mutilde r. println_i64(r + 100); <r + 1 | mutilde x0. exit x0>) }
